@@ -114,8 +114,9 @@ Proof.
     destruct pk; try (cbn [out2_5] in Hn; inversion Hn; subst; apply (Hfin []); [sproj5; rewrite app_nil_r; reflexivity|reflexivity]).
     + (* connack *)
       destruct (handle_incoming_connack5_eff s0 code receive_max topic_alias_max)
-        as [[_ He] | [_ [s2 [He [_ [_ [_ [_ [_ [Hevs _]]]]]]]]]]; rewrite He in Hn; cbn [out2_5] in Hn; inversion Hn; subst s' rep.
+        as [[_ He] | [[_ [_ He]] | [_ [_ [s2 [He [_ [_ [_ [_ [_ [Hevs _]]]]]]]]]]]]; rewrite He in Hn; cbn [out2_5] in Hn; inversion Hn; subst s' rep.
       * apply (Hfin []); [rewrite app_nil_r; reflexivity|reflexivity].
+      * apply (Hfin []); [rewrite app_nil_r; apply alias_taken5_slots|reflexivity].
       * apply (Hfin []); [rewrite app_nil_r; exact Hevs|reflexivity].
     + (* publish *)
       unfold handle_incoming_publish5, outgoing_puback5, outgoing_pubrec5, outgoing_disconnect5 in Hn.
@@ -183,12 +184,17 @@ Definition incoming_reply_spec5 (s : state5) (pk : packet5) (r : R5 (option pack
   | P5PubComp id _ => bit (s5_rel s) id = false -> r = Err (push5 s (Ev5In pk), E5Unsolicited id)
   | P5SubAck _ | P5UnsubAck _ => r = Ok (push5 s (Ev5In pk), None)
   | P5PingResp => exists s', r = Ok (s', None)
-  | P5ConnAck _ code rm _ =>
+  | P5ConnAck _ code rm tam =>
       if code =? 0
-      then exists s', r = Ok (s', None) /\ s5_pub s' = s5_pub s /\ s5_rel s' = s5_rel s /\ s5_collision s' = s5_collision s
+      then match rm with
+           | Some 0 => (* protocol error; only topic_alias_max, which the code reads first, was taken over *)
+               r = Err (alias_taken5 (push5 s (Ev5In pk)) tam, E5ConnFail 130)
+           | _ =>
+           exists s', r = Ok (s', None) /\ s5_pub s' = s5_pub s /\ s5_rel s' = s5_rel s /\ s5_collision s' = s5_collision s
                       /\ s5_inflight s' = s5_inflight s /\ s5_incoming s' = s5_incoming s
                       /\ s5_events s' = s5_events s ++ [Ev5In pk]
                       /\ s5_max s' = match rm with Some m => N.min m (s5_max_limit s) | None => s5_max s end
+           end
       else r = Err (push5 s (Ev5In pk), E5ConnFail code)
   | P5Disconnect reason => r = Err (push5 s (Ev5In pk), E5ServerDisconnect reason)
   | P5Auth | P5Connect | P5Subscribe _ _ | P5Unsubscribe _ _ | P5PingReq => r = Err (push5 s (Ev5In pk), E5WrongPacket)
@@ -213,9 +219,16 @@ Proof.
   - (* connack *)
     destruct (handle_incoming_connack5_eff (push5 s (Ev5In (P5ConnAck session_present code receive_max topic_alias_max)))
                 code receive_max topic_alias_max)
-      as [[Hc He] | [Hc [s2 [He [Hp [Hr [Hcl [_ [_ [Hev [Hin [Hinc Hm]]]]]]]]]]]]; rewrite He.
+      as [[Hc He] | [[Hc [Hz He]] | [Hc [Hnz [s2 [He [Hp [Hr [Hcl [_ [_ [Hev [Hin [Hinc Hm]]]]]]]]]]]]]]; rewrite He.
     + destruct (N.eqb_spec code 0); [congruence|reflexivity].
-    + subst code. rewrite N.eqb_refl. exists s2. repeat split; auto.
+    + subst code receive_max. rewrite N.eqb_refl. reflexivity.
+    + subst code. rewrite N.eqb_refl.
+      assert (G : exists s', Ok (s2, None) = Ok (s', @None packet5) /\ s5_pub s' = s5_pub s /\ s5_rel s' = s5_rel s /\ s5_collision s' = s5_collision s
+                      /\ s5_inflight s' = s5_inflight s /\ s5_incoming s' = s5_incoming s
+                      /\ s5_events s' = s5_events s ++ [Ev5In (P5ConnAck session_present 0 receive_max topic_alias_max)]
+                      /\ s5_max s' = match receive_max with Some m => N.min m (s5_max_limit s) | None => s5_max s end)
+        by (exists s2; repeat split; auto).
+      destruct receive_max as [[|m]|]; [congruence|exact G|exact G].
   - (* publish *)
     unfold handle_incoming_publish5, outgoing_puback5, outgoing_pubrec5, outgoing_disconnect5, alias_unknown5. sproj5.
     destruct (q_alias p) as [a|] eqn:Ea.
@@ -260,18 +273,13 @@ Proof.
   - eexists. reflexivity.
 Qed.
 
-(** never a panic, the invariant survives (so [inflight -= 1] never underflows and no table index
-    is out of range) — for EVERY incoming packet, including a CONNACK that announces
-    receive-maximum 0, which the contract [op_ok5] excludes only because it breaks the allocator
-    ([j_max1]), not because anything panics on arrival *)
+(** never a panic (so [inflight -= 1] never underflows and no table index is out of range) — for
+    EVERY incoming packet; the invariant survives too ([handle_incoming_packet5_inv]) *)
 Theorem incoming_never_panics5 s pk : Inv5 s ->
   match handle_incoming_packet5 s pk with Panic _ => False | _ => True end.
 Proof.
-  intros I. destruct (op_ok5 s (Inc5 pk)) eqn:Hok.
-  - pose proof (handle_incoming_packet5_inv s pk I Hok) as H.
-    destruct (handle_incoming_packet5 s pk) as [[? ?] | [? ?] | ?]; cbn [post5] in H; auto.
-  - destruct pk; cbn [op_ok5] in Hok; try discriminate. destruct receive_max; [|discriminate].
-    cbn [handle_incoming_packet5]. unfold handle_incoming_connack5. destruct (negb (code =? 0)); exact Logic.I.
+  intros I. pose proof (handle_incoming_packet5_inv s pk I) as H.
+  destruct (handle_incoming_packet5 s pk) as [[? ?] | [? ?] | ?]; cbn [post5] in H; auto.
 Qed.
 
 (** ---- run level: the notification queue of a whole history is the concatenation, op by op, of
